@@ -20,8 +20,8 @@ def main():
     res_path = os.path.join(V, "seeded", "RESULTS.json")
     results = json.load(open(res_path)) if os.path.exists(res_path) else {}
     st = subprocess.run("git -C /repo status --porcelain", shell=True, capture_output=True, text=True).stdout.strip()
-    assert not st, "/repo not clean: " + st
-    for d in sorted(glob.glob(os.path.join(V, "seeded", "C??-mut?"))):
+    assert not st or "--scratch" in sys.argv, "/repo not clean: " + st
+    for d in sorted(glob.glob(os.path.join(V, "seeded", "C??-mut*"))):
         sid = os.path.basename(d)
         if args and sid not in args and sid.split("-")[0] not in args:
             continue
@@ -29,18 +29,29 @@ def main():
         props = props_opt[0] if props_opt else (sorted(have) if allprops else [pid])
         props = [p for p in props if p in have]
         out_dir = tempfile.mkdtemp(prefix="pyvc_seed_")
-        subprocess.check_call(f"git -C /repo apply {d}/patch.diff", shell=True)
+        scratch = "--scratch" in sys.argv
+        env = dict(os.environ, PYVC_OUT=out_dir)
+        if scratch:  # same check, against a scratch copy of the tree (used while something else needs /repo untouched)
+            tree = tempfile.mkdtemp(prefix="pyvc_seedtree_")
+            shutil.copytree("/repo/src", os.path.join(tree, "src"))
+            subprocess.check_call(["git", "apply", os.path.join(d, "patch.diff")], cwd=tree)
+            env["VERIF_REPO"] = tree
+        else:
+            subprocess.check_call(f"git -C /repo apply {d}/patch.diff", shell=True)
         entry = results.setdefault(sid, {})
         try:
             for p in props:
                 t0 = time.time()
                 r = subprocess.run(f"python3-vt -m pyvc check {p} --tier quick", shell=True, cwd=V, capture_output=True, text=True,
-                                   env=dict(os.environ, PYVC_OUT=out_dir))
+                                   env=env)
                 lines = [l for l in r.stdout.splitlines() if l.startswith(("VIOLATION", "UNDECIDED", "CHECKER-ERROR", "KNOWN-FINDING"))]
                 entry[p] = {"exit": r.returncode, "lines": lines[:6], "n_lines": len(lines), "wall_s": round(time.time() - t0, 1)}
                 print(sid, p, "exit", r.returncode, (lines[:2] or [""])[0][:150])
         finally:
-            subprocess.check_call("git -C /repo checkout -- .", shell=True)
+            if scratch:
+                shutil.rmtree(tree, ignore_errors=True)
+            else:
+                subprocess.check_call("git -C /repo checkout -- .", shell=True)
             shutil.rmtree(out_dir, ignore_errors=True)
         json.dump(results, open(res_path, "w"), indent=1, sort_keys=True)
 
